@@ -41,6 +41,7 @@ type Gen struct {
 	MaxEntities int            `json:"max_alive"`
 	MaxArch     int            `json:"max_archetypes"`
 	RelTargets  map[string]int `json:"relation_target_kinds"`
+	TypedArity  map[string]int `json:"typed_wide_arity"`
 }
 
 // profileCfg tunes the generator for one property family.
@@ -55,6 +56,7 @@ type profileCfg struct {
 	typedBias  float64 // probability of preferring the typed tuple path
 	maxComps   int     // 256, or 64 for the tiny build
 	fullReg    bool    // fill the registry up to the maximum
+	allComps   bool    // register all static component types
 }
 
 func profileOf(name string) profileCfg {
@@ -93,6 +95,8 @@ func profileOf(name string) profileCfg {
 		m["add"], m["rem"], m["xchg"], m["shrink"], m["xchgb"], m["reset"] = 2, 2, 2, 3, 2, 2
 	case "typed":
 		c.typedBias = 0.95
+		c.allComps = true
+		m["typedwide"] = 12
 	case "shrink":
 		m["shrink"], m["del"], m["delb"], m["newb"], m["setrel"], m["freg"], m["query"] = 10, 3, 3, 3, 2, 2, 2
 	case "reset":
@@ -113,7 +117,7 @@ func profileOf(name string) profileCfg {
 
 func newGen(h *H, ow *bufio.Writer, seed int64, profile string) *Gen {
 	return &Gen{h: h, ow: ow, rng: rand.New(rand.NewSource(seed)), profile: profile, cfg: profileOf(profile),
-		OpKinds: map[string]int{}, Panics: map[string]int{}, RelTargets: map[string]int{}}
+		OpKinds: map[string]int{}, Panics: map[string]int{}, RelTargets: map[string]int{}, TypedArity: map[string]int{}}
 }
 
 func (g *Gen) emit(line string) {
@@ -129,7 +133,7 @@ func (g *Gen) val() int64 {
 	return g.valCtr%250 + 1
 }
 
-func (g *Gen) pick(n int) int { return g.rng.Intn(n) }
+func (g *Gen) pick(n int) int        { return g.rng.Intn(n) }
 func (g *Gen) chance(p float64) bool { return g.rng.Float64() < p }
 
 // ----- world inspection -----
@@ -188,7 +192,7 @@ func (g *Gen) pickEntity(stale float64) (string, int, bool) {
 		l := dead[g.pick(len(dead))]
 		return fmt.Sprintf("e%d", l), l, false
 	}
-	if g.chance(stale/4) {
+	if g.chance(stale / 4) {
 		return "z", -1, false
 	}
 	if len(alive) == 0 {
@@ -318,6 +322,9 @@ func (g *Gen) prelude() {
 	// component registration: random order, fillers spread the IDs over the mask words
 	order := g.rng.Perm(numStatic)
 	nreg := 6 + g.pick(numStatic-5)
+	if g.cfg.allComps {
+		nreg = numStatic
+	}
 	order = order[:nreg]
 	// make sure at least one relation and one plain component are present
 	hasRel := false
@@ -365,6 +372,18 @@ func (g *Gen) newFilter() {
 	if g.chance(0.2) {
 		kind = "unsafe"
 	}
+	// typed filter of a generated arity (Filter1-8) when the tuple is instantiated
+	if len(with) > 0 && g.chance(g.cfg.typedBias) {
+		cand := g.tupleOrder(with)
+		var cs []*regComp
+		for _, n := range cand {
+			cs = append(cs, g.h.comps[n])
+		}
+		if _, ok := filterCtors[tupleKey(cs)]; ok {
+			with = cand
+			kind = "tuple"
+		}
+	}
 	line := fmt.Sprintf("filter f%d %s", l, kind)
 	if len(with) > 0 {
 		line += " with=" + joinComps(with)
@@ -388,7 +407,7 @@ func (g *Gen) newFilter() {
 		line += " excl"
 	}
 	// fixed relations (typed only): on relation components in `with`
-	if kind == "typed" && g.chance(0.3) {
+	if kind != "unsafe" && g.chance(0.3) {
 		var rs []string
 		for _, n := range with {
 			if g.isRel(n) && g.chance(0.7) {
@@ -402,7 +421,7 @@ func (g *Gen) newFilter() {
 	g.emit(line)
 	if _, ok := g.h.filters[l]; ok {
 		g.filterLabels = append(g.filterLabels, l)
-		if kind == "typed" {
+		if kind != "unsafe" {
 			g.typedFilters = append(g.typedFilters, l)
 		}
 	}
@@ -692,6 +711,19 @@ func (g *Gen) opSetRel() bool {
 	if len(cs) == 1 && g.chance(0.5) {
 		p = "m"
 	}
+	mapperOpt := ""
+	if g.chance(g.cfg.typedBias) {
+		// typed MapN.SetRelations: the mapper's tuple must contain the relation components
+		tup := g.tupleOrder(cs)
+		var rcs []*regComp
+		for _, n := range tup {
+			rcs = append(rcs, g.h.comps[n])
+		}
+		if _, ok := mapperCtors[tupleKey(rcs)]; ok {
+			p = "t"
+			mapperOpt = " mapper=" + joinComps(tup)
+		}
+	}
 	var parts []string
 	for i, n := range cs {
 		tgt := g.pickTarget(0.03)
@@ -703,7 +735,7 @@ func (g *Gen) opSetRel() bool {
 		}
 		parts = append(parts, fmt.Sprintf("c%d>%s", n, tgt))
 	}
-	g.emit(fmt.Sprintf("setrel %s %s %s", el, p, strings.Join(parts, " ")))
+	g.emit(fmt.Sprintf("setrel %s %s %s%s", el, p, strings.Join(parts, " "), mapperOpt))
 	return true
 }
 
@@ -794,6 +826,51 @@ func (g *Gen) opTwinQueries() bool {
 	}
 	if a2 {
 		g.emit(fmt.Sprintf("qclose q%d", q2))
+	}
+	return true
+}
+
+// opTypedWide exercises the generated arities: an entity is created (or extended) through a
+// MapN whose tuple is one of the instantiated windows of any arity 1..12, then Set through it.
+func (g *Gen) opTypedWide() bool {
+	var keys [][]int
+	for k := range mapperCtors {
+		var t []int
+		ok := true
+		for _, part := range strings.Split(k, ",") {
+			n := int(part[0] - 'a')
+			if g.h.comps[n] == nil {
+				ok = false
+			}
+			t = append(t, n)
+		}
+		if ok {
+			keys = append(keys, t)
+		}
+	}
+	if len(keys) == 0 {
+		return false
+	}
+	sort.Slice(keys, func(i, j int) bool { return fmt.Sprint(keys[i]) < fmt.Sprint(keys[j]) })
+	// bias towards the wide tuples
+	t := keys[g.pick(len(keys))]
+	for tries := 0; tries < 3 && len(t) < 5; tries++ {
+		t = keys[g.pick(len(keys))]
+	}
+	g.TypedArity[fmt.Sprint(len(t))]++
+	l := g.nextEnt
+	g.nextEnt++
+	g.ents = append(g.ents, l)
+	g.emit(fmt.Sprintf("new e%d t %s", l, g.compTokens(t, true, 0.02, 0.03)))
+	if g.h.lastOK && g.chance(0.6) {
+		var parts []string
+		for _, n := range t {
+			parts = append(parts, fmt.Sprintf("c%d:%d", n, g.val()))
+		}
+		g.emit(fmt.Sprintf("set e%d t %s", l, strings.Join(parts, " ")))
+	}
+	if g.h.lastOK && g.chance(0.3) {
+		g.emit(fmt.Sprintf("rem e%d t %s", l, joinSp(t)))
 	}
 	return true
 }
@@ -905,6 +982,32 @@ func (g *Gen) opXchgBatch() bool {
 		fn = "nofn"
 	}
 	var line string
+	if g.chance(g.cfg.typedBias) {
+		// typed multi-component batch add / exchange / remove through MapN / ExchangeN
+		var cand []int
+		for _, n := range names {
+			if !inFilter[n] {
+				cand = append(cand, n)
+			}
+		}
+		add := g.tupleOrder(g.subset(cand, 1, 3))
+		var cs []*regComp
+		for _, n := range add {
+			cs = append(cs, g.h.comps[n])
+		}
+		if _, ok := mapperCtors[tupleKey(cs)]; ok && len(add) > 0 {
+			rem := ""
+			if _, ok2 := exchangeCtors[tupleKey(cs)]; ok2 && len(fo.names) > 0 && g.chance(0.4) {
+				rem = fmt.Sprintf(" -c%d", fo.names[g.pick(len(fo.names))])
+			}
+			var parts []string
+			for _, tok := range strings.Fields(g.compTokens(add, true, 0.02, 0.03)) {
+				parts = append(parts, "+"+tok)
+			}
+			g.emit(fmt.Sprintf("xchgb f%d t %s%s %s%s", l, fn, g.extraRels(l, 0.3), strings.Join(parts, " "), rem))
+			return true
+		}
+	}
 	if g.chance(0.5) {
 		// add one component not required by the filter (mostly)
 		var cand []int
@@ -1216,6 +1319,7 @@ func (g *Gen) Run(nseq, nops int) {
 			}},
 			{"res", 1, g.opRes},
 			{"relbatch", 2, g.opRelBatchNoFn},
+			{"typedwide", 1, g.opTypedWide},
 			{"twinq", 2, g.opTwinQueries},
 			{"locked", 1, func() bool { g.emit("locked"); return true }},
 		}
